@@ -34,7 +34,9 @@ def run(c):
     P = c.get('periods', 252)
     ts_ = TearsheetStatistics(df.copy(), periods=P)
     t = ts_.get_results(df.copy())
-    j = JSONStatistics(df.copy(), alloc, periods=P).statistics['strategy']
+    jfull = JSONStatistics(df.copy(), alloc, periods=P, benchmark_curve=df.copy()).statistics
+    j = jfull['strategy']
+    jb = jfull['benchmark']
     rets = t['returns']
     cum = t['cum_returns']
     dd, mdd, dur = perf.create_drawdowns(cum)
@@ -48,6 +50,8 @@ def run(c):
         'tear': {'sharpe': num(t['sharpe']), 'maxdd': num(t['max_drawdown']), 'maxdd_pct': num(t['max_drawdown_pct']),
                  'duration': int(t['max_drawdown_duration']), 'dd': series(t['drawdowns']), 'returns': series(t['returns']),
                  'cum': series(t['cum_returns'])},
+        'json_bench': {'sharpe': num(jb['sharpe']), 'sortino': num(jb['sortino']), 'cagr': num(jb['cagr']), 'maxdd': num(jb['max_drawdown']),
+                       'duration': int(jb['max_drawdown_duration']), 'ann_vol': num(jb['annualised_vol'])},
         'json': {'sharpe': num(j['sharpe']), 'sortino': num(j['sortino']), 'cagr': num(j['cagr']), 'maxdd': num(j['max_drawdown']),
                  'duration': int(j['max_drawdown_duration']), 'mean': num(j['mean_returns']), 'std': num(j['stdev_returns']),
                  'ann_vol': num(j['annualised_vol']),
